@@ -983,3 +983,402 @@ register("C08", run_C08, module="Robotools.Props.C08",
                    "fluentWellOf_fluentPos_trough", "pos_range", "pos_inj", "pos_surj", "positions_eq_evoPos", "makeWellArray_eq_wells",
                    "makeWellIndexDict_eq_table", "unknown_id_no_index")], rule="all plate geometries 1..26 x (1..30, 99, 100, 120) and trough geometries 1..26 x 1..24: tables of every geometry, positions of all wells of 60 sampled geometries (quick) / all (thorough), malformed IDs, helpers, unknown-well operations",
          genok=["gen_rowLettersLabware_ok", "gen_rowLettersTransform_ok", "gen_wellIdFormats_ok"])
+
+
+# ------------------------------------------------------------------ C15 transforms
+def arr_result(x):
+    """numpy array / scalar of well IDs → protocol text."""
+    import numpy as np
+    a = np.asarray(x)
+    if a.ndim == 0:
+        return "S:" + proto.e_str(str(a))
+    if a.ndim == 1:
+        return "V:" + ",".join(proto.e_str(str(v)) for v in a)
+    return f"M:{a.shape[0]}:{a.shape[1]}:" + ",".join(proto.e_str(str(v)) for v in a.flatten())
+
+
+def pick_sub(rng, R, C, ids2d):
+    """A scalar / 1-D / 2-D sub-array of the ID grid, as protocol Arr."""
+    x = rng.random()
+    if x < 0.2:
+        return ("S", ids2d[rng.randrange(R)][rng.randrange(C)])
+    if x < 0.6:
+        k = rng.randint(1, min(R * C, 6))
+        flat = [w for row in ids2d for w in row]
+        return ("V", [rng.choice(flat) for _ in range(k)])
+    r0 = rng.randrange(R); r1 = rng.randint(r0 + 1, min(R, r0 + 3))
+    c0 = rng.randrange(C); c1 = rng.randint(c0 + 1, min(C, c0 + 4))
+    return ("M", r1 - r0, c1 - c0, [ids2d[r][c] for r in range(r0, r1) for c in range(c0, c1)])
+
+
+def run_C15(ctx):
+    from robotools import WellShifter, WellRotator, WellRandomizer
+    res = Result()
+    rng = ctx.rng
+    A = lambda a: proto.e_arr(proto.e_str, a)
+    cases = []
+    for _ in range(ctx.n(300)):
+        rA, cA = rng.randint(1, 16), rng.randint(1, 24)
+        rB, cB = rng.randint(1, 16), rng.randint(1, 24)
+        if rng.random() < 0.7:
+            rB, cB = max(rA, rB), max(cA, cB)
+        anchor = G.wid(rng.randrange(rB), rng.randrange(cB)) if rng.random() < 0.9 else rng.choice(["Z99", "A1", G.wid(rB, 0)])
+        idsA = [[G.wid(r, c) for c in range(cA)] for r in range(rA)]
+        idsB = [[G.wid(r, c) for c in range(cB)] for r in range(rB)]
+        direction = rng.choice(["shift", "unshift"])
+        wells = pick_sub(rng, rA, cA, idsA) if direction == "shift" else pick_sub(rng, rB, cB, idsB)
+        def call():
+            sh = WellShifter((rA, cA), (rB, cB), anchor)
+            out = sh.shift(impl.arr_str(wells)) if direction == "shift" else sh.unshift(impl.arr_str(wells))
+            return "ok " + arr_result(out)
+        ans = guarded(call)
+        msg = None
+        # oracle: offset rule, refusal rule, inverse
+        try:
+            dr, dc = "ABCDEFGHIJKLMNOPQRSTUVWXYZ".index(anchor[0]), int(anchor[1:]) - 1
+            known = len(anchor) >= 3 and anchor == G.wid(dr, dc) and dr < rB and dc < cB
+        except ValueError:
+            known = False
+        fits = known and rA + dr <= rB and cA + dc <= cB
+        if not fits and not ans.startswith("err"):
+            msg = f"WellShifter({(rA, cA)}, {(rB, cB)}, {anchor!r}) accepted although the plate does not fit / anchor unknown"
+        if fits and direction == "shift":
+            want = [G.wid("ABCDEFGHIJKLMNOPQRSTUVWXYZ".index(w[0]) + dr, int(w[1:]) - 1 + dc) for w in (wells[1] if wells[0] == "V" else [wells[1]] if wells[0] == "S" else wells[3])]
+            got = ans[3:].split(":")[-1].split(",") if ans.startswith("ok") else None
+            if got is None or [proto.d_str(g) for g in got] != want:
+                msg = f"shift of {wells} by anchor {anchor}: {ans[:200]}"
+            elif ans.startswith("ok"):
+                sh = WellShifter((rA, cA), (rB, cB), anchor)
+                back = arr_result(sh.unshift(sh.shift(impl.arr_str(wells))))
+                if back != A(wells):
+                    msg = "unshift(shift(x)) != x"
+        cases.append({"line": f"shifter {rA} {cA} {rB} {cB} {proto.e_str(anchor)} {direction} {A(wells)}", "impl": ans,
+                      "case": {"kind": "fn", "fn": "shifter", "A": [rA, cA], "B": [rB, cB], "anchor": anchor, "dir": direction, "wells": wells},
+                      "oracle": msg, "sig": "C15:shifter"})
+    for _ in range(ctx.n(300)):
+        R, C = rng.randint(1, 16), rng.randint(1, 24)
+        ids = [[G.wid(r, c) for c in range(C)] for r in range(R)]
+        wells = pick_sub(rng, R, C, ids)
+        direction = rng.choice(["cw", "ccw"])
+        rot = WellRotator((R, C))
+        ans = guarded(lambda: "ok " + arr_result(rot.rotate_cw(impl.arr_str(wells)) if direction == "cw" else rot.rotate_ccw(impl.arr_str(wells))))
+        msg = None
+        flat = wells[1] if wells[0] == "V" else [wells[1]] if wells[0] == "S" else wells[3]
+        rc = [("ABCDEFGHIJKLMNOPQRSTUVWXYZ".index(w[0]), int(w[1:]) - 1) for w in flat]
+        want = [G.wid(c, R - 1 - r) for r, c in rc] if direction == "cw" else [G.wid(C - 1 - c, r) for r, c in rc]
+        got = [proto.d_str(g) for g in ans[3:].split(":")[-1].split(",")] if ans.startswith("ok") else None
+        if got != want:
+            msg = f"rotate_{direction} on {R}x{C} of {flat[:5]} = {got and got[:5]}, expected {want[:5]}"
+        else:
+            rot2 = WellRotator((C, R))
+            x = rot.rotate_cw(impl.arr_str(wells))
+            if arr_result(rot2.rotate_ccw(x)) != A(wells):
+                msg = "rotate_ccw(rotate_cw(x)) != x"
+            y = rot.rotate_cw(rot2.rotate_cw(x))
+            if arr_result(rot2.rotate_cw(y)) != A(wells):
+                msg = "four clockwise rotations are not the identity"
+        cases.append({"line": f"rotator {R} {C} {direction} {A(wells)}", "impl": ans,
+                      "case": {"kind": "fn", "fn": "rotator", "shape": [R, C], "dir": direction, "wells": wells}, "oracle": msg, "sig": "C15:rotator"})
+    for _ in range(ctx.n(250)):
+        R, C = rng.randint(1, 16), rng.randint(1, 24)
+        seed = rng.randint(0, 200)
+        mode = rng.choice(["full", "row", "column"])
+        ids = [[G.wid(r, c) for c in range(C)] for r in range(R)]
+        wells = pick_sub(rng, R, C, ids)
+        direction = rng.choice(["rand", "derand"])
+        rz = WellRandomizer((R, C), seed, mode=mode)
+        rz2 = WellRandomizer((R, C), seed, mode=mode)
+        orig = list(rz.lookup.keys()); rand = [str(rz.lookup[k]) for k in orig]
+        ans = guarded(lambda: "ok " + arr_result(rz.randomize_wells(impl.arr_str(wells)) if direction == "rand" else rz.derandomize_wells(impl.arr_str(wells))))
+        msg = None
+        allw = [w for row in ids for w in row]
+        if rz.lookup != rz2.lookup:
+            msg = "two randomisers with the same seed differ"
+        elif sorted(orig) != sorted(allw) or sorted(rand) != sorted(allw):
+            msg = "randomisation is not a permutation of the plate"
+        elif mode == "row" and any(k[0] != v[0] for k, v in zip(orig, rand)):
+            msg = "row mode moved a well to another row"
+        elif mode == "column" and any(k[1:] != v[1:] for k, v in zip(orig, rand)):
+            msg = "column mode moved a well to another column"
+        elif ans.startswith("ok"):
+            back = arr_result(rz.derandomize_wells(rz.randomize_wells(impl.arr_str(wells))))
+            if back != A(wells):
+                msg = "derandomize(randomize(x)) != x (or shape changed)"
+        else:
+            msg = f"randomize/derandomize raised {ans} on {wells[0]} argument"
+        if msg:
+            msg = f"WellRandomizer(({R},{C}), {seed}, mode={mode!r}): {msg}"
+        cases.append({"line": f"randomizer {','.join(proto.e_str(k) for k in orig)} {','.join(proto.e_str(k) for k in rand)} {direction} {A(wells)}",
+                      "impl": ans, "case": {"kind": "fn", "fn": "randomizer", "shape": [R, C], "seed": seed, "mode": mode, "dir": direction, "wells": wells},
+                      "oracle": msg, "sig": "C15:randomizer"})
+    fn_stream(ctx, res, "transforms", cases, lambda a, b: a == b or (a.startswith("err") and b.startswith("err")))
+    return res
+
+
+register("C15", run_C15, rule="shapes 1..16 x 1..24, random anchors (incl. non-fitting / unknown), scalar / 1-D / 2-D sub-arrays, seeds 0..200, three randomisation modes")
+
+
+# ------------------------------------------------------------------ C17 save
+def run_C17(ctx):
+    import tempfile, shutil
+    from pathlib import Path as P
+    res = Result()
+    rng = ctx.rng
+    tmp = P(tempfile.mkdtemp(prefix="verif_c17_"))
+    cases = []
+    try:
+        for n in range(ctx.n(250)):
+            k = rng.choice([0, 1, 1, 2, 3, 8, 30])
+            recs = []
+            wl = impl.make_wl({"dev": rng.choice(["evo", "fluent", "base"]), "max_volume": F(950)})
+            for _ in range(k):
+                x = rng.random()
+                if x < 0.3:
+                    wl.comment(rng.choice(["µ-liter", "plain", "a\nb", "  pad  ", "Größe ÿ", "x" * 70]))
+                elif x < 0.5:
+                    wl.aspirate_well("Plate µ", rng.randint(1, 96), rng.choice([10, 12.5, 0.125]), liquid_class=rng.choice(["", "LC ±"]))
+                elif x < 0.6:
+                    wl.dispense_well("P", rng.randint(1, 96), 5, tip=rng.randint(1, 8))
+                elif x < 0.7:
+                    wl.wash(rng.randint(1, 4))
+                elif x < 0.8:
+                    wl.commit()
+                elif x < 0.9:
+                    wl.reagent_distribution("T", 1, 8, "P", 1, 20, volume=25, exclude_wells=[3, 5])
+                else:
+                    wl.flush()
+            recs = [str(r) for r in wl]
+            name = rng.choice(["w.gwl", "W.GWL", "a.b.gwl", "x y.gwl", "w.gwl.txt", "w.txt", "gwl", ".gwl", "w.gwlx", "wgwl", "w.Gwl"])
+            path = tmp / f"{n}_{name}" if not name.startswith(".") else tmp / f"d{n}" / name
+            path.parent.mkdir(exist_ok=True)
+            pre = rng.choice([None, b"", b"OLD" * 3, b"X" * 5000])
+            if pre is not None:
+                path.write_bytes(pre)
+            arg = str(path) if rng.random() < 0.5 else path
+            via_with = rng.random() < 0.3
+            exc = None
+            try:
+                if via_with:
+                    wl2 = type(wl)(arg, max_volume=950)
+                    wl2.append("stale")          # entering the with block must start from an empty worklist
+                    with wl2:
+                        for r in recs:
+                            wl2.append(r)
+                else:
+                    wl.save(arg)
+                    if rng.random() < 0.3:
+                        wl.save(arg)             # repeated save
+            except Exception as e:  # noqa: BLE001
+                exc = e
+            fname = path.name
+            accepted = exc is None
+            data = path.read_bytes() if path.exists() else None
+            want_ok = P(fname).suffix.lower() == ".gwl"
+            msg = None
+            if accepted != want_ok:
+                msg = f"file name {fname!r}: accepted={accepted}, a .gwl extension is {'present' if want_ok else 'absent'}"
+            elif accepted:
+                want = "\r\n".join(recs).encode("latin_1")
+                if data != want:
+                    msg = f"file content differs from the CRLF-joined Latin-1 records ({len(data or b'')} vs {len(want)} bytes; previous content {len(pre) if pre is not None else None} bytes)"
+                elif recs and data.decode("latin_1").split("\r\n") != recs:
+                    msg = "reading back does not return the records"
+                elif str(wl) != "\n".join(recs):
+                    msg = "str(worklist) does not show the records"
+            ans = "ok " + ",".join(str(b) for b in data) if (accepted and data is not None) else "err:reject"
+            cases.append({"line": "save " + (",".join(proto.e_str(r) for r in recs) or "_"), "impl": ans if accepted else None,
+                          "case": {"kind": "fn", "fn": "save", "records": recs, "file": fname, "preexisting": None if pre is None else len(pre), "with": via_with},
+                          "oracle": msg, "sig": "C17:save", "name": fname, "accepted": accepted, "nontrivial": len(recs) > 0})
+        sfx = [{"line": "gwl_suffix " + proto.e_str(c["name"]), "impl": "ok 1" if c["accepted"] else "ok 0",
+                "case": {"kind": "fn", "fn": "gwl_suffix", "file": c["name"]}, "oracle": None} for c in cases]
+        fn_stream(ctx, res, "save-bytes", [c for c in cases if c["impl"] is not None])
+        for c in cases:
+            if c["impl"] is None and c["oracle"]:
+                res.viol.append(Finding("save-bytes", c["case"], c["oracle"], c["sig"]))
+        fn_stream(ctx, res, "gwl-suffix", sfx)
+    finally:
+        shutil.rmtree(tmp, ignore_errors=True)
+    return res
+
+
+register("C17", run_C17, genok=["gen_saveJoiner_ok", "gen_saveOpen_ok"],
+         rule="record lists of 0..30 records of every type with Latin-1 text, saved through save() and the with-block to str/Path names with and without .gwl, over pre-existing shorter/longer files, repeated saves")
+
+
+# ------------------------------------------------------------------ C20 constructors
+def gen_ctor_spec(rng):
+    """One labware specification: valid, or with exactly one fault of the statement's classes."""
+    fault = rng.choice([None, None, None, "rows", "cols", "min", "max", "vrows", "init_neg", "init_big", "init_nan", "init_len",
+                        "names_empty", "names_unknown", "too_many_rows", "vrows_multi", "colnames_len", "colnames_empty"])
+    if rng.random() < 0.55:
+        rows = rng.choice([1, 2, 3, 8, 16, 26]) if rng.random() < 0.8 else rng.randint(1, 26)
+        cols = rng.choice([1, 2, 3, 12, 24]) if rng.random() < 0.8 else rng.randint(1, 120)
+        mx = rng.choice([F(100), F(250), F(1000), F(25, 2)])
+        mn = rng.choice([F(0), F(0), F(5), F(10)])
+        n = rows * cols
+        mode = rng.random()
+        if mode < 0.2:
+            init = None
+        elif mode < 0.45:
+            init = ("S", rng.choice([F(0), mx, G.grid(rng, 0, mx)]))
+        elif mode < 0.75:
+            init = ("V", [rng.choice([F(0), G.grid(rng, 0, mx), mx]) for _ in range(n)])
+        else:
+            shape = (rows, cols) if rng.random() < 0.7 else (cols, rows)
+            init = ("M", shape[0], shape[1], [rng.choice([F(0), G.grid(rng, 0, mx)]) for _ in range(n)])
+        flat = [F(0)] * n if init is None else [init[1]] * n if init[0] == "S" else list(init[1] if init[0] == "V" else init[3])
+        names = {}
+        for i in range(n):
+            if flat[i] > 0 and rng.random() < 0.3:
+                names[G.wid(i // cols, i % cols)] = rng.choice(["water", "X", "dye", None])
+        spec = {"kind": "plate", "name": rng.choice(["P", "plate 1", "µ"]), "rows": rows, "cols": cols, "min": mn, "max": mx, "init": init, "names": names}
+        if fault == "rows":
+            spec["rows"] = rng.choice([0, -1, proto.Bad(2.5), proto.Bad("2")])
+        elif fault == "cols":
+            spec["cols"] = rng.choice([0, -3, proto.Bad(1.0)])
+        elif fault == "min":
+            spec["min"] = F(-1)
+        elif fault == "max":
+            spec["max"] = rng.choice([spec["min"], spec["min"] - 1]) if spec["min"] > 0 else F(0)
+            spec["init"] = None; spec["names"] = {}
+        elif fault == "too_many_rows":
+            spec["rows"] = rng.choice([27, 30, 40]); spec["init"] = None; spec["names"] = {}
+        elif fault == "vrows_multi" and rows > 1:
+            spec["vrows"] = 4
+        elif fault == "init_neg":
+            spec["init"] = ("V", [F(-1)] + [F(0)] * (n - 1)); spec["names"] = {}
+        elif fault == "init_big":
+            spec["init"] = ("S", mx + F(1, 8)); spec["names"] = {}
+        elif fault == "init_nan":
+            spec["init"] = ("V", ["nan"] + [F(0)] * (n - 1)); spec["names"] = {}
+        elif fault == "init_len":
+            spec["init"] = ("V", [F(1)] * (n + rng.choice([-1, 1, 2]) or 1)) if n + 1 else None; spec["names"] = {}
+            if len(spec["init"][1]) == n:
+                spec["init"] = ("V", [F(1)] * (n + 1))
+        elif fault == "names_empty":
+            z = [i for i in range(n) if flat[i] == 0]
+            if z:
+                spec["names"] = dict(names, **{G.wid(z[0] // cols, z[0] % cols): "ghost"})
+            else:
+                fault = None
+        elif fault == "names_unknown":
+            spec["names"] = dict(names, **{rng.choice(["Z99", G.wid(rows, 0) if rows < 26 else "A999", "A1"]): "ghost"})
+        elif fault in ("vrows", "colnames_len", "colnames_empty", "vrows_multi"):
+            fault = None
+        spec["fault"] = fault
+        return spec
+    vrows = rng.choice([1, 2, 4, 8, 16, 26])
+    cols = rng.choice([1, 1, 2, 3, 4, 12])
+    mx = rng.choice([F(1000), F(10000)])
+    mn = rng.choice([F(0), F(100)])
+    init = ("S", rng.choice([F(0), mx, G.grid(rng, 0, mx)])) if rng.random() < 0.4 else ("V", [rng.choice([F(0), mx, G.grid(rng, 0, mx)]) for _ in range(cols)])
+    flat = [init[1]] * cols if init[0] == "S" else list(init[1])
+    x = rng.random()
+    if x < 0.4:
+        cn = None
+    elif x < 0.5 and cols == 1 and flat[0] > 0:
+        cn = ("S", "water")
+    else:
+        cn = ("V", [(rng.choice(["water", "acid", "X"]) if (flat[c] > 0 and rng.random() < 0.6) else None) for c in range(cols)])
+    spec = {"kind": "trough", "name": rng.choice(["T", "trough µ"]), "vrows": vrows, "cols": cols, "min": mn, "max": mx, "init": init, "col_names": cn}
+    if fault == "vrows":
+        spec["vrows"] = rng.choice([0, -1, 27, 30, proto.Bad(2.5)])
+    elif fault == "cols":
+        spec["cols"] = rng.choice([0, -1, proto.Bad(2.5)])
+    elif fault == "min":
+        spec["min"] = F(-5)
+    elif fault == "init_neg":
+        spec["init"] = ("V", [F(-1)] + [F(0)] * (cols - 1)); spec["col_names"] = None
+    elif fault == "init_big":
+        spec["init"] = ("S", mx + 1); spec["col_names"] = None
+    elif fault == "init_nan":
+        spec["init"] = ("V", ["nan"] + [F(1)] * (cols - 1)); spec["col_names"] = None
+    elif fault == "init_len":
+        spec["init"] = ("V", [F(1)] * (cols + 1)); spec["col_names"] = None
+    elif fault == "colnames_len":
+        spec["col_names"] = ("V", ["a"] * (cols + 1))
+    elif fault == "colnames_empty":
+        z = [c for c in range(cols) if flat[c] == 0]
+        if z:
+            cnl = [None] * cols; cnl[z[0]] = "ghost"
+            spec["col_names"] = ("V", cnl)
+        else:
+            fault = None
+    else:
+        fault = None
+    spec["fault"] = fault
+    return spec
+
+
+def ctor_oracle(spec, L, err):
+    """Independent statement of C20 on one constructor call."""
+    fault = spec.get("fault")
+    if fault is not None:
+        if err is None:
+            return f"unrepresentable specification accepted ({fault})"
+        if err != "valueErr":
+            return f"unrepresentable specification ({fault}) raised {err}, not ValueError"
+        return None
+    if err is not None:
+        return f"valid specification rejected with {err}"
+    import numpy as np
+    trough = spec["kind"] == "trough"
+    rows = 1 if trough else spec["rows"]
+    cols = spec["cols"]
+    idrows = spec["vrows"] if trough else rows
+    ids = [[G.wid(r, c) for c in range(cols)] for r in range(idrows)]
+    if L.wells.shape != (idrows, cols) or [[str(x) for x in row] for row in L.wells] != ids:
+        return "wells array is not the ID grid"
+    if L.volumes.shape != (rows, cols):
+        return f"volume array shape {L.volumes.shape}"
+    if set(L.indices) != {w for row in ids for w in row} or any(tuple(L.indices[ids[r][c]]) != ((0 if trough else r), c) for r in range(idrows) for c in range(cols)):
+        return "index map does not describe the grid"
+    init = spec.get("init")
+    n = rows * cols
+    flat = [F(0)] * n if init is None else [init[1]] * n if init[0] == "S" else list(init[1] if init[0] == "V" else init[3])
+    got = [F(float(v)) for v in L.volumes.flatten()]
+    if got != flat:
+        return "initial volumes not laid out as given"
+    if not (0 <= L.min_volume < L.max_volume) or any(not (0 <= v <= F(spec["max"])) for v in got):
+        return "limits / initial volumes out of range"
+    h = L.history
+    if len(h) != 1 or h[0][0] != "initial" or [F(float(v)) for v in h[0][1].flatten()] != flat:
+        return "history is not exactly the initial state"
+    comp = L.composition
+    for i in range(n):
+        ones = [k for k, arr in comp.items() if float(arr.flatten()[i]) == 1.0]
+        nz = [k for k, arr in comp.items() if float(arr.flatten()[i]) != 0.0]
+        if flat[i] > 0 and (len(ones) != 1 or nz != ones):
+            return f"well {i} is non-empty but has components {nz}"
+        if flat[i] == 0 and nz:
+            return f"well {i} is empty but has components {nz}"
+        if flat[i] > 0:
+            # naming rule
+            if trough:
+                cn = spec.get("col_names")
+                given = None if cn is None else (cn[1] if cn[0] == "S" else cn[1][i])
+                want = given if given is not None else (f"{spec['name']}.column_{i + 1:02d}" if cols > 1 else spec["name"])
+            else:
+                given = (spec.get("names") or {}).get(G.wid(i // cols, i % cols))
+                want = given if given is not None else (f"{spec['name']}.{G.wid(i // cols, i % cols)}" if rows > 1 else spec["name"])
+            if ones != [want]:
+                return f"well {i} named {ones}, expected {want!r}"
+    return None
+
+
+def run_C20(ctx):
+    res = Result()
+    rng = ctx.rng
+    specs = [gen_ctor_spec(rng) for _ in range(ctx.n(900))]
+    progs = [{"cfg": {"dev": "evo", "max_volume": F(950)}, "labs": [{k: v for k, v in s.items() if k != "fault"}], "ops": [], "strict_value": True} for s in specs]
+    runs = stateful(ctx, res, "constructors", progs, [], strict_value=True)
+    for s, p, r in zip(specs, progs, runs):
+        res.dist["fault:" + str(s.get("fault"))] += 1
+        msg = ctor_oracle(s, r.labs[0] if r.labs else None, r.lab_results[0])
+        if msg:
+            case = {"kind": "stateful", "stream": "constructors", "prog": p, "oracles": [], "stop_on_error": True, "strict_value": True}
+            res.viol.append(Finding("constructors", case, f"{s['kind']} {({k: v for k, v in s.items() if k not in ('kind',)})}: {msg}", "C20:constructor"))
+    return res
+
+
+register("C20", run_C20, rule="constructor specifications (plates up to 26x120, troughs up to 26 virtual rows) with scalar / flat / 2-D initial volumes and names; one fault per invalid specification from the statement's classes")
